@@ -23,7 +23,8 @@ var c07Callees = []string{".u", ".r", ".nope"}
 var c07ParamNames = []string{"", "k", "zz", "q"}
 
 type c07Gen struct {
-	budget int
+	profile int // 0: all node kinds; 1: binding structure only (print, let value, let content, if)
+	budget  int
 	rOrder int // order of the soydoc lines of callee .r: -1 not yet chosen, 0 required first, 1 optional first
 }
 
@@ -43,7 +44,13 @@ func (g *c07Gen) node(depth int) *qNode {
 	if depth == 0 {
 		kinds = 2
 	}
-	switch k := verifChoose(kinds); k {
+	k := 0
+	if g.profile == 1 && depth > 0 {
+		k = verifChoose(4)
+	} else {
+		k = verifChoose(kinds)
+	}
+	switch k {
 	case 0:
 		n := &qNode{kind: 0, name: g.v()}
 		if n.name == "i" && verifChoose(2) == 1 {
@@ -269,8 +276,16 @@ func H_datarefs(depth, budget int, declA, declB bool) { c07Run(depth, budget, de
 // other templates do.
 func H_datarefsLate(depth, budget, late int) { c07Run(depth, budget, true, true, late) }
 
+// H_datarefsBind: the generator restricted to binding structure (print, let value, let content,
+// if; no calls or loops), which affords one more node: sequences such as reference / shadowing
+// let / reference.
+func H_datarefsBind(depth, budget int, declB bool) { c07Run(depth, budget, true, declB, -1) }
+
 func c07Run(depth, budget int, declA, declB bool, late int) {
 	g := &c07Gen{budget: budget, rOrder: -1}
+	if late < 0 {
+		g.profile, late = 1, 0
+	}
 	if late != 0 {
 		g.rOrder = 0 // (the order of the callee's soydoc lines is varied by H_datarefs)
 	}
